@@ -14,6 +14,7 @@ C18 — noexcept and type-trait contract is exactly as documented and is truthfu
 import SvModel.Gen.NoexceptTable
 import SvModel.Gen.NoexceptFlags
 import SvModel.Proofs.AppendN
+import SvModel.Proofs.NoThrowCond
 
 namespace SvModel.C18
 open SvModel.Gen
@@ -97,6 +98,34 @@ theorem clear_nothrow (cfg : Cfg) (c : Nat) : NoThrow (eraseAll cfg c : M α Uni
 /-- swap for inline capacity 0 with swappable allocators (noexcept): only the headers are exchanged -/
 theorem swap_allocation_nothrow (c o : Nat) : NoThrow (swapAllocation c o : M α Unit) := by
   intro w; exact ⟨_, _, rfl⟩
+
+/-! ### conditionally noexcept internal functions -/
+/-- the modelled internal functions whose `noexcept` is CONDITIONAL in the source (on the element type's nothrow traits) -/
+def expectedConditional : List (String × Nat) :=
+  [("construct", 1), ("construct", 2), ("uninitialized_move", 0), ("uninitialized_move", 1), ("move_assign_default", 1),
+   ("move_assign", 0), ("move_initialize", 1), ("swap_elements", 0), ("swap_default", 0), ("swap", 1)]
+
+theorem noexcept_conditional_flags_as_modelled :
+    (noexceptFlags.filter (fun r => r.2.2 == .conditional)).map (fun r => (r.1, r.2.1)) = expectedConditional := by decide
+
+/-- … and when the condition holds (move construction and move assignment of the element type cannot throw) their model
+    counterparts have NO throwing path, for every world and fault list — in particular none of them allocates:
+    uninitialized_move, swap_elements, swap_default, and the overloads of move_initialize / move_assign_default for a
+    source whose inline capacity is not larger -/
+theorem conditional_noexcept_nothrow (cfg : Cfg) (h1 : cfg.tMove = false) (h2 : cfg.tMasg = false) :
+    (∀ sb si n db di, NoThrow (uninitializedMove cfg false sb si n db di : M α Unit)) ∧
+    (∀ c o, NoThrow (swapElements cfg c o : M α Unit)) ∧
+    (∀ c o, NoThrow (swapDefault cfg c o : M α Unit)) ∧
+    (∀ c o (w : World α), (w.hdr o).N ≤ (w.hdr c).N → ∃ b w', moveInitialize cfg c o w = .ok b w') ∧
+    (∀ c o (w : World α), (w.hdr o).N ≤ (w.hdr c).N → ∃ b w', moveAssignDefault cfg c o w = .ok b w') :=
+  ⟨fun sb si n db di => uninitializedMove_nothrow cfg h1 sb si n db di, fun c o => swapElements_nothrow cfg h1 h2 c o,
+   fun c o => swapDefault_nothrow cfg h1 h2 c o, fun c o w h => moveInitialize_le_nothrow cfg h1 c o w h,
+   fun c o w h => moveAssignDefault_le_nothrow cfg h1 h2 c o w h⟩
+
+/-- non-vacuity: the all-nothrow element flavour satisfies the condition; a flavour with a throwing move does not -/
+example : ({ copyThrows := false, moveThrows := false, casgThrows := false, masgThrows := false } : Cfg).tMove = false ∧
+    ({ copyThrows := false, moveThrows := false, casgThrows := false, masgThrows := false } : Cfg).tMasg = false ∧
+    ({ moveThrows := true } : Cfg).tMove = true := by decide
 
 /-- non-vacuity of the table: it has rows of every kind -/
 example : nxTable.length = 96 ∧ (nxTable.filter (fun r => r.N == 0)).length = 48 ∧ (nxTable.filter (fun r => r.isStd)).length = 16 := by decide
